@@ -72,6 +72,7 @@ type Opts struct {
 	Named   bool // static named / recursive types
 	Options bool // flat / intern / proto tag options
 	Proto   bool // instance uses ProtoCompatibleArrays (affects which shapes are representable)
+	BQ      bool // BQTimestampCodec registered under the tag flattime
 	MaxDepth int
 }
 
@@ -261,6 +262,8 @@ func typeNew(r *rand.Rand, o Opts, depth int) *abs.TD {
 					f.Opt = "flat"
 				case (b.K == "string" || (b.K == "null" && b.Of == "string")) && r.Intn(3) == 0:
 					f.Opt = "intern"
+				case o.BQ && b.K == "time" && r.Intn(3) == 0:
+					f.Opt = "flattime"
 				case b.K == "slice" && class(b.E, false) == "len" && r.Intn(3) == 0:
 					f.Opt = "proto"
 				case b.K == "map" && r.Intn(3) == 0 && !(Base(b.Val).K == "slice" && class(Base(b.Val).E, false) == "len" && false):
